@@ -12,7 +12,7 @@ import (
 
 func init() {
 	register(&Rule{ID: "R16", Name: "LENCHK", Floor: 2,
-		Text: "in New: (a) a comparison between two values that both derive from Column.Len() results exists and its `differs` edge returns; (b) the reference length of that comparison is not (re)assigned under a guard that compares the reference itself with a constant a legal length can take (a zero sentinel collides with the legal length 0)",
+		Text: "in New: (a) a comparison between two values that both derive from Column.Len() results exists and its `differs` edge returns; (c) that comparison is executed on every iteration of the loop that creates the columns (it is inside the loop and dominates its back edges), so every column, not only the last, is compared; (b) the reference length of that comparison is not (re)assigned under a guard that compares the reference itself with a constant a legal length can take (a zero sentinel collides with the legal length 0)",
 		Run:  runR16})
 	register(&Rule{ID: "R12", Name: "HASH-EQ", Floor: 5,
 		Text: "hash and equality agree: for every Comparable, Hash and Compare read the same storage projection; when the cell type is floating point the value whose bit pattern is hashed is zero-normalised (f+0, or a `== 0` guarded assignment of the constant 0) and NaN-normalised (an IsNaN guarded assignment of a canonical NaN) because Compare treats 0/-0 as equal and all NaNs alike",
@@ -106,6 +106,41 @@ func runR16(c *Ctx) {
 		c.ok("qframe.New|length comparison", p.instrPos(cmp), "two Len()-derived values are compared and the differs edge returns an error frame")
 	} else {
 		c.bad("qframe.New|length comparison", p.instrPos(cmp), "the differs edge of the length comparison does not return")
+	}
+	// (c) every column is compared: the comparison sits in the loop that creates the columns and is executed on
+	// every iteration that reaches the next one
+	var colLoop *loopInfo
+	loops := loopsOf(fn)
+	eachInstr(fn, func(in ssa.Instruction) {
+		call, ok := in.(*ssa.Call)
+		if !ok {
+			return
+		}
+		if callee := call.Call.StaticCallee(); callee != nil && callee.Name() == "createColumn" {
+			for i := range loops {
+				if inLoop(loops[i], call.Block()) && (colLoop == nil || colLoop.header.Dominates(loops[i].header)) {
+					colLoop = &loops[i]
+				}
+			}
+		}
+	})
+	switch {
+	case colLoop == nil:
+		c.undecided("qframe.New|every column compared", p.pos(fn.Pos()), "the loop that creates the columns was not found")
+	case !inLoop(*colLoop, cmp.Block()):
+		c.bad("qframe.New|every column compared", p.instrPos(cmp), "the length comparison is outside the loop that creates the columns: only the last column is compared with the reference, a column of different length in between goes unnoticed (and later operations index out of range)")
+	default:
+		okC := true
+		for _, pred := range colLoop.header.Preds {
+			if colLoop.header.Dominates(pred) && !(cmp.Block() == pred || cmp.Block().Dominates(pred)) {
+				okC = false
+			}
+		}
+		if okC {
+			c.ok("qframe.New|every column compared", p.instrPos(cmp), "the comparison is executed on every iteration of the column loop")
+		} else {
+			c.bad("qframe.New|every column compared", p.instrPos(cmp), "an iteration of the column loop can reach the next one without the length comparison")
+		}
 	}
 	// (b) sentinel
 	refs := map[ssa.Value]bool{}
